@@ -18,7 +18,7 @@ C08  (a) every CPU x every 16-bit prefix x fixed tail: NUL-terminated text insid
      (b) disasm_range over fixed blocks prints exactly the chain of instruction addresses start, start+len, ...
      up to the end; (c) naken_util -disasm over images in several page geometries lists every instruction.
 """
-import re, os, json, collections, subprocess
+import re, os, json, collections, subprocess, zlib
 import nvlib, gen_src as S
 
 NUM = re.compile(r"(?<![A-Za-z0-9_$.'])(0x[0-9a-fA-F]+|\d+)(?![A-Za-z0-9_.'])")
@@ -30,12 +30,18 @@ C08_THEOREMS = []
 LEAN_MODULES = []
 CPU = "all-cpus-sweep"
 NAME = "sweep over all CPUs (exploration only)"
-MODELLED = "nothing (property-level oracles on the real code: round trips, length/locality/tiling, no golden outputs)"
-NOT_MODELLED = "all back ends of cpu_list are only explored here, deterministic input sets (see tools/cpu_sweep.py)"
+MODELLED = ("NOTHING: this part is EXPLORATION, not proof - no Lean model and no theorem; property-level oracles run on the "
+            "real code of every back end of cpu_list over fixed input sets (round trips, value tracking, "
+            "length/locality/tiling; never golden outputs); a failure that known_findings_sweep.json does not name is a "
+            "VIOLATION, the absence of failures proves nothing beyond the inputs that were run")
+NOT_MODELLED = ("every back end other than the modelled ones is only explored: corpus statements x boundary values of "
+                "their literals, every 16-bit pattern (+ fixed tails, two offsets), three byte blocks per CPU for the "
+                "range walk, four CPUs x nine page geometries for naken_util -disasm (tools/cpu_sweep.py, "
+                "notes/sweep.md)")
+ONLY_CPUS = None      # replay: restrict the sweeps to these CPUs
 A0 = 0x1000
 TAIL = "00112233445566778899aabbccdd"
 HERE = os.path.dirname(os.path.dirname(os.path.abspath(__file__)))
-CRASH_CAP = 8      # crashing prefixes located per CPU before the search stops (each costs a process restart)
 
 
 # ---------------------------------------------------------------------------------------------
@@ -77,86 +83,109 @@ def known_members(prop):
     return out
 
 
+def corpus_cpus():
+    """CPUs that have a statement corpus; NV_SWEEP_ONLY=<cpu,cpu> restricts them (development aid, never set by a check)"""
+    only = os.environ.get("NV_SWEEP_ONLY")
+    return [c for c in S.cpus() if (not only or c in only.split(",")) and (ONLY_CPUS is None or c in ONLY_CPUS)]
+
+
+def heavy(ctx, lines):
+    """batch commands (thousands of instructions per line): one shard per core whatever the number of lines, and a
+    time limit sized for a loaded machine"""
+    return nvlib.run_lines(ctx.harness, lines, timeout=3600, shards=min(nvlib.NPROC, max(1, len(lines))))
+
+
+def statements(cpu):
+    """statements of the corpus (snapshot of tests/comparison) plus corpus/sweep_extra/<cpu>.txt: hand-written
+    jumps, branches and calls with NUMERIC targets (the test corpus writes them with labels, which the generators
+    skip); data for the sweeps only, statements an assembler rejects are ignored"""
+    out = list(S.statements(cpu))
+    p = os.path.join(HERE, "corpus", "sweep_extra", cpu + ".txt")
+    if os.path.exists(p):
+        out += [l.strip() for l in open(p, encoding="latin-1") if l.strip() and l.strip() not in out]
+    return out
+
+
 def cpu_table(ctx):
     """[(name, bytes_per_address)] of every cpu_list entry, from the harness"""
     a = ctx.impl(["cpus"])[0]
     out = []
     for item in a.split(","):
         n, bpa, endian = item.split(":")
-        out.append((n, max(1, int(bpa))))
+        if ONLY_CPUS is None or n in ONLY_CPUS:
+            out.append((n, max(1, int(bpa))))
     return out
 
 
-# ---------------------------------------------------------------------------------------------
-# C06
-# ---------------------------------------------------------------------------------------------
-def c06_lines():
-    lines, meta = [], []
-    for cpu in S.cpus():
-        for st in S.statements(cpu):
-            for m in NUM.finditer(st):
-                t = m.group(1)
-                v = int(t, 16) if t.startswith("0x") else int(t)
-                lines.append("asmq %s %s" % (cpu, nvlib.hexs(st)))
-                meta.append((cpu, st, m.start(1), None, v))
-                for k in KS:
-                    st2 = st[:m.start(1)] + ("0x%x" % (v + (1 << k))) + st[m.end(1):]
-                    lines.append("asmq %s %s" % (cpu, nvlib.hexs(st2)))
-                    meta.append((cpu, st, m.start(1), k, v + (1 << k)))
-    return lines, meta
-
-
-def c06_correspondence(ctx, corr):
-    return
-
-
-def c06_oracle(ctx, orc):
-    lines, meta = c06_lines()
-    ans = ctx.impl(lines)
-    hits = collections.OrderedDict()
-    base = None
-    accepted = 0
-    for (cpu, st, pos, k, v), a in zip(meta, ans):
-        orc["cases"] += 1
-        if a.startswith("DIED"):
-            orc["failures"].append({"sig": "C06:sweep-crash:%s:%s" % (cpu, st), "input": st, "expected": "ok/err",
-                                    "observed": a, "what": "assembler crashed on operand value 0x%x" % v})
-            continue
-        if k is None:
-            base = a
-            continue
-        if a.startswith("ok"):
-            accepted += 1
-            if a == base:
-                hits.setdefault((cpu, st, pos), []).append(k)
-    for (cpu, st, pos), ks in hits.items():
-        orc["failures"].append({"sig": "C06:trunc:%s:%s@%d" % (cpu, st, pos), "input": ".%s / %s" % (cpu, st),
-                                "expected": "different bytes or an error",
-                                "observed": "same bytes as the original for the literal + 2^k, k in %s" % ks,
-                                "what": "operand silently truncated", "replay_line": "asmq %s %s" % (cpu, nvlib.hexs(st))})
-    orc["stats"]["sweep_c06"] = {"statements": len(set((m[0], m[1]) for m in meta)), "variants": len(lines),
-                                 "variants_accepted": accepted, "truncations": len(hits)}
+def _with_replay(orc, prop, start):
+    """every failure this module added since index `start` gets a replay record (re-run of the sweep on its CPU)"""
+    for f in orc["failures"][start:]:
+        p = f["sig"].split(":")
+        if len(p) > 2:
+            f["replay"] = {"cpu": "sweep", "prop": prop, "only": p[2], "sig": f["sig"]}
 
 
 # ---------------------------------------------------------------------------------------------
-# statements and their variants (C01)
+# statements and their variants (shared by C01, C06, C07)
 # ---------------------------------------------------------------------------------------------
+# Values put in the place of every numeric literal of a corpus statement: the field boundaries 2^k-1, 2^k, -2^k,
+# -2^k-1, the 32-bit edges, and far PC-relative targets around the load address (A0 +- 2^k, and 2 inside that).
+KB = (3, 4, 5, 6, 7, 8, 11, 12, 15, 16)
+EDGES32 = [0x7fffffff, 0x80000000, 0xffffffff, -0x80000000, -0x7fffffff]
+BOUNDARY = [f for k in KB for f in ((1 << k) - 1, 1 << k, -(1 << k), -(1 << k) - 1)] + [0, 1] + EDGES32
+FAR = [x for k in (8, 11, 12, 16, 20, 21, 22, 24, 25)
+       for x in (A0 + (1 << k), A0 - (1 << k), A0 + (1 << k) - 2, A0 - (1 << k) + 2) if x >= 0]
+ALLVALS = BOUNDARY + FAR
+QUICK_PICKS = 4
+# statements whose mnemonic looks like a jump / branch / call: their literal is a target, the quick tier gives them
+# every far target (the reach of the offset field is what such encoders and decoders get wrong)
+BRANCHLIKE = re.compile(r"^(\w+\s+)?(b|j|c\.j|c\.b|call|rcall|rjmp|acall|ajmp|ljmp|lcall|sjmp|goto|loop|djnz|sob|dbra|lb|br|rj|if_\w+\s+j)", re.I)
+
+
+def _lit(t, w):
+    """value w written in the style of literal token t"""
+    if t.startswith("0x"):
+        return ("-0x%x" % -w) if w < 0 else "0x%x" % w
+    return "%d" % w
+
+
 def variants(st, thorough):
-    """the statement itself and copies with one numeric literal replaced (deterministic)"""
-    out = [st]
-    for m in NUM.finditer(st):
+    """[(text, pos, value)]: the statement itself (pos None) and copies with ONE numeric literal replaced.
+    thorough: every value of ALLVALS plus neighbours of the literal; quick: two neighbours, the five 32-bit edge
+    values, QUICK_PICKS values of ALLVALS chosen by a hash of the statement text, and every far target for a
+    branch-like mnemonic (a subset of the thorough set; nothing depends on the seed)."""
+    out = [(st, None, None)]
+    h = zlib.crc32(st.encode("latin-1"))
+    for li, m in enumerate(NUM.finditer(st)):
         t = m.group(1)
         v = int(t, 16) if t.startswith("0x") else int(t)
-        vals = [v + 1, v ^ 2]
+        near = [v + 1, v ^ 2, v - 1 if v > 0 else 3, v * 2]
         if thorough:
-            vals += [0, 1, v - 1 if v > 0 else 3, v * 2, 0x7f, 0x80, 0xff, 0x100, 0x7fff, 0x8000, 0xffff]
+            vals = near + ALLVALS
+        else:
+            vals = near[:2] + EDGES32 + [ALLVALS[(h + 7 * li + 13 * j) % len(ALLVALS)] for j in range(QUICK_PICKS)]
+            if BRANCHLIKE.match(st):
+                vals += FAR
         seen = set([v])
         for w in vals:
-            if w in seen or w < 0:
+            if w in seen:
                 continue
             seen.add(w)
-            out.append(st[:m.start(1)] + ("0x%x" % w if t.startswith("0x") else "%d" % w) + st[m.end(1):])
+            out.append((st[:m.start(1)] + _lit(t, w) + st[m.end(1):], m.start(1), w))
     return out
+
+
+# A listing may end in an annotation of a PC-relative operand - " (14)", " (offset=-2)" after the target address -
+# which is an aid for the reader, not part of the instruction (the assemblers reject it; the seeded demos drop it as
+# well).  The round trips assemble the text without it.  Only a trailing, blank-separated, purely decimal annotation
+# is removed: "ld a,(500)" keeps its operand.
+ANNOT = re.compile(rb"^(.*[^ \t,(]*[0-9][^ \t,(]*)[ \t]+\((offset=)?-?[0-9]+\)[ \t]*$", re.S)
+
+
+def instr_text(txt):
+    """txt without a trailing annotation that follows an operand containing a digit (the target address)"""
+    m = ANNOT.match(txt)
+    return m.group(1) if m else txt
 
 
 def walk_bytes(ctx, items):
@@ -192,68 +221,265 @@ def walk_bytes(ctx, items):
     return res
 
 
+def round_trip(ctx, thorough):
+    """assemble every corpus statement and its variants at A0, walk the disassembler over the emitted bytes,
+    assemble every printed text again at its address.
+    returns a list of records {cpu, st, text, pos, value, status, bytes, walk: (kind, detail), pieces: [(off, bytes,
+    text, answer)]} (status: "ok" | "ok@" | "err" | "DIED ...")"""
+    lines, recs = [], []
+    for cpu in corpus_cpus():
+        for st in statements(cpu):
+            for (v, pos, w) in variants(st, thorough):
+                lines.append("asm1 %s %x - %s" % (cpu, A0, nvlib.hexs(v)))
+                recs.append({"cpu": cpu, "st": st, "text": v, "pos": pos, "value": w})
+    ans = ctx.impl(lines)
+    items = []
+    for i, (r, a) in enumerate(zip(recs, ans)):
+        r["status"] = a.split()[0] if not a.startswith("DIED") else a[:160]
+        r["bytes"] = bytes.fromhex(a.split()[1]) if a.startswith("ok ") else None
+        r["walk"], r["pieces"] = None, []
+        if r["bytes"] is not None:
+            items.append((i, r["cpu"], A0, r["bytes"]))
+    walked = walk_bytes(ctx, items)
+    lines2, meta2 = [], []
+    for (i, cpu, addr, b) in items:
+        recs[i]["walk"] = walked[i]
+        if walked[i][0] == "ok":
+            for off, n, txt in walked[i][1]:
+                lines2.append("asm1 %s %x - %s" % (cpu, A0 + off, instr_text(txt).hex() or "-"))
+                meta2.append((i, off, b[off:off + n], txt))
+    ans2 = ctx.impl(lines2)
+    for (i, off, b, txt), a in zip(meta2, ans2):
+        recs[i]["pieces"].append((off, b, txt, a))
+    return recs
+
+
+def piece_verdict(b, a):
+    """round-trip verdict of one disassembled piece: same | rejected | crash | diff"""
+    if a.startswith("err"):
+        return "rejected"
+    if a.startswith("ok ") and bytes.fromhex(a.split()[1]) == b:
+        return "same"
+    if a.startswith("DIED"):
+        return "crash"
+    return "diff"
+
+
+# ---------------------------------------------------------------------------------------------
+# C01
+# ---------------------------------------------------------------------------------------------
 def c01_correspondence(ctx, corr):
     return
 
 
 def c01_oracle(ctx, orc):
-    thorough = not ctx.quick()
-    lines, meta = [], []
-    for cpu in S.cpus():
-        for st in S.statements(cpu):
-            for v in variants(st, thorough):
-                lines.append("asm1 %s %x - %s" % (cpu, A0, nvlib.hexs(v)))
-                meta.append((cpu, st, v))
-    ans = ctx.impl(lines)
-    items = []
+    _start = len(orc["failures"])
+    _c01_oracle(ctx, orc)
+    _with_replay(orc, "C01", _start)
+
+
+def _c01_oracle(ctx, orc):
+    recs = round_trip(ctx, not ctx.quick())
     fails = collections.OrderedDict()
 
-    def fail(cpu, kind, st, v, exp, obs):
-        key = (cpu, kind, st)
+    def fail(r, kind, exp, obs):
+        key = (r["cpu"], kind, r["st"])
         if key not in fails:
-            fails[key] = {"sig": "C01:sweep:%s:%s:%s" % (cpu, kind, st), "input": ".%s / %s" % (cpu, v),
+            fails[key] = {"sig": "C01:sweep:%s:%s:%s" % key, "input": ".%s / %s" % (r["cpu"], r["text"]),
                           "expected": exp, "observed": obs, "what": "all-CPU round-trip sweep: " + kind,
-                          "replay_line": "asm1 %s %x - %s" % (cpu, A0, nvlib.hexs(v))}
+                          "replay_line": "asm1 %s %x - %s" % (r["cpu"], A0, nvlib.hexs(r["text"]))}
 
-    accepted = 0
-    for i, ((cpu, st, v), a) in enumerate(zip(meta, ans)):
+    accepted = exact = same = rej = 0
+    for r in recs:
         orc["cases"] += 1
-        if a.startswith("DIED"):
-            fail(cpu, "asm-crash", st, v, "ok/err", a[:160])
-        elif a.startswith("ok "):
-            accepted += 1
-            items.append((i, cpu, A0, bytes.fromhex(a.split()[1])))
-    walked = walk_bytes(ctx, items)
-    lines2, meta2 = [], []
-    exact = 0
-    for (i, cpu, addr, b) in items:
-        cpu, st, v = meta[i]
-        kind, det = walked[i]
+        if r["status"].startswith("DIED"):
+            fail(r, "asm-crash", "ok/err", r["status"])
+        if r["bytes"] is None:
+            continue
+        accepted += 1
+        kind, det = r["walk"]
         if kind != "ok":
-            fail(cpu, kind, st, v, "the disassembler consumes exactly the emitted bytes " + b.hex(), det)
+            fail(r, kind, "the disassembler consumes exactly the emitted bytes " + r["bytes"].hex(), det)
             continue
         exact += 1
-        for off, n, txt in det:
-            lines2.append("asm1 %s %x - %s" % (cpu, A0 + off, txt.hex() or "-"))
-            meta2.append((i, b[off:off + n], txt))
-    ans2 = ctx.impl(lines2)
-    same = rej = 0
-    for (i, b, txt), a in zip(meta2, ans2):
-        cpu, st, v = meta[i]
-        orc["cases"] += 1
-        if a.startswith("err"):
-            rej += 1
-        elif a.startswith("ok ") and bytes.fromhex(a.split()[1]) == b:
-            same += 1
-        elif a.startswith("DIED"):
-            fail(cpu, "reasm-crash", st, v, "ok/err", a[:160])
-        else:
-            fail(cpu, "diff", st, v, "bytes %s again (or a rejection)" % b.hex(),
-                 "disassembly '%s' assembles to %s" % (txt.decode("latin-1"), a))
+        for off, b, txt, a in r["pieces"]:
+            orc["cases"] += 1
+            v = piece_verdict(b, a)
+            if v == "same":
+                same += 1
+            elif v == "rejected":
+                rej += 1
+            elif v == "crash":
+                fail(r, "reasm-crash", "ok/err", a[:160])
+            else:
+                fail(r, "diff", "bytes %s again (or a rejection)" % b.hex(),
+                     "%s disassembles to '%s', which assembles to %s" % (b.hex(), txt.decode("latin-1"), a))
     orc["failures"].extend(fails.values())
-    orc["stats"]["sweep_c01"] = {"cpus": len(S.cpus()), "statements_and_variants": len(lines), "accepted": accepted,
+    orc["stats"]["sweep_c01"] = {"cpus": len(corpus_cpus()), "statements_and_variants": len(recs), "accepted": accepted,
                                  "walk_exact": exact, "texts_reassembled_same": same, "texts_rejected": rej,
                                  "failing_statements": len(fails)}
+    orc["distinct_nontrivial"] = orc.get("distinct_nontrivial", 0) + accepted
+
+
+# ---------------------------------------------------------------------------------------------
+# C06
+# ---------------------------------------------------------------------------------------------
+def c06_lines():
+    lines, meta = [], []
+    for cpu in corpus_cpus():
+        for st in statements(cpu):
+            for m in NUM.finditer(st):
+                t = m.group(1)
+                v = int(t, 16) if t.startswith("0x") else int(t)
+                lines.append("asmq %s %s" % (cpu, nvlib.hexs(st)))
+                meta.append((cpu, st, m.start(1), None, v))
+                for k in KS:
+                    st2 = st[:m.start(1)] + ("0x%x" % (v + (1 << k))) + st[m.end(1):]
+                    lines.append("asmq %s %s" % (cpu, nvlib.hexs(st2)))
+                    meta.append((cpu, st, m.start(1), k, v + (1 << k)))
+    return lines, meta
+
+
+def c06_correspondence(ctx, corr):
+    return
+
+
+def numbers(txt):
+    """the numbers of a disassembly text (0x.., $.., ..h, decimal; a leading '-' or '#-' counts as the sign)"""
+    out = []
+    for m in NUMTOK.finditer(txt):
+        t = m.group(1)
+        try:
+            if t.startswith(b"0x"):
+                v = int(t, 16)
+            elif t.startswith(b"$"):
+                v = int(t[1:], 16)
+            elif t.endswith(b"h"):
+                v = int(t[:-1], 16)
+            else:
+                v = int(t)
+        except ValueError:
+            continue
+        if m.start(1) > 0 and txt[m.start(1) - 1:m.start(1)] == b"-":
+            v = -v
+        out.append(v)
+    return out
+
+
+def same_value(p, w):
+    """p and w are spellings of one operand value: equal after reading a value in 2^31..2^32-1 as its 32-bit two's
+    complement (0xffffffff is -1, see ASSUMPTIONS of the property modules), or the signed and the unsigned reading of
+    the same k-bit pattern whose top bit is set (-1 and 0xff, 0xfffe and -2, ...), 3 <= k <= 32"""
+    def readings(x):
+        return {x, x - (1 << 32)} if (1 << 31) <= x < (1 << 32) else {x}
+    for a in readings(p):
+        for b in readings(w):
+            if a == b:
+                return True
+            lo, hi = min(a, b), max(a, b)
+            if lo >= 0:
+                continue
+            for k in range(3, 33):
+                if hi - lo == (1 << k) and (1 << (k - 1)) <= hi < (1 << k):
+                    return True
+    return False
+
+
+def c06_oracle(ctx, orc):
+    _start = len(orc["failures"])
+    _c06_oracle(ctx, orc)
+    _with_replay(orc, "C06", _start)
+
+
+def _c06_oracle(ctx, orc):
+    # (1) a literal N and N + 2^k are never accepted with the same encoding
+    lines, meta = c06_lines()
+    ans = ctx.impl(lines)
+    hits = collections.OrderedDict()
+    base = None
+    accepted = 0
+    for (cpu, st, pos, k, v), a in zip(meta, ans):
+        orc["cases"] += 1
+        if a.startswith("DIED"):
+            orc["failures"].append({"sig": "C06:sweep-crash:%s:%s" % (cpu, st), "input": st, "expected": "ok/err",
+                                    "observed": a, "what": "assembler crashed on operand value 0x%x" % v})
+            continue
+        if k is None:
+            base = a
+            continue
+        if a.startswith("ok"):
+            accepted += 1
+            if a == base:
+                hits.setdefault((cpu, st, pos), []).append(k)
+    for (cpu, st, pos), ks in hits.items():
+        orc["failures"].append({"sig": "C06:trunc:%s:%s@%d" % (cpu, st, pos), "input": ".%s / %s" % (cpu, st),
+                                "expected": "different bytes or an error",
+                                "observed": "same bytes as the original for the literal + 2^k, k in %s" % ks,
+                                "what": "operand silently truncated", "replay_line": "asmq %s %s" % (cpu, nvlib.hexs(st))})
+    # (2) an accepted boundary value is the value that was encoded.  For a literal that the listing TRACKS (the
+    # listing of the original statement and of its accepted neighbours v+1, v^2 shows their values) the listing of an
+    # accepted boundary value w (w not 0 or 1: listings leave those out) must show w or its signed/unsigned alias.
+    # If it shows another value and that listing assembles to the very same bytes, the encoder gave two different
+    # operand values one encoding; if it shows no instruction at all ('???'), the value ran into the opcode bits.
+    # (A listing that assembles to OTHER bytes is a disagreement of decoder and encoder: C01's business.)
+    recs = round_trip(ctx, not ctx.quick())
+
+    def listing(r):
+        return [txt for off, n_, txt in r["walk"][1]]
+
+    def shows(r, value):
+        return any(same_value(n, value) for txt in listing(r) for n in numbers(txt))
+
+    by_lit = collections.defaultdict(list)
+    base = {}
+    for r in recs:
+        if r["bytes"] is None or not r["walk"] or r["walk"][0] != "ok":
+            continue
+        if r["pos"] is None:
+            base[(r["cpu"], r["st"])] = r
+        else:
+            by_lit[(r["cpu"], r["st"], r["pos"])].append(r)
+    altered = collections.OrderedDict()
+    checked = tracked = 0
+    for key, rs in by_lit.items():
+        cpu, st, pos = key
+        b = base.get((cpu, st))
+        if b is None:
+            continue
+        m = NUM.match(st, pos)
+        t = m.group(1)
+        v = int(t, 16) if t.startswith("0x") else int(t)
+        near = [r for r in rs if r["value"] in (v + 1, v ^ 2) and r["value"] not in (0, 1)]
+        if v in (0, 1) or not shows(b, v) or not near or not all(shows(r, r["value"]) for r in near):
+            continue
+        tracked += 1
+        for r in rs:
+            w = r["value"]
+            orc["cases"] += 1
+            if w in (0, 1) or shows(r, w):
+                continue
+            checked += 1
+            texts = "; ".join(x.decode("latin-1") for x in listing(r))
+            verdicts = [piece_verdict(bb, a) for off, bb, txt, a in r["pieces"]]
+            if any((not x) or b"?" in x for x in listing(r)):
+                why = "operand %d (0x%x) accepted, emitted %s, which is listed as '%s': no instruction" % (
+                    w, w & 0xffffffff, r["bytes"].hex(), texts)
+            elif verdicts and all(x == "same" for x in verdicts):
+                why = "operand %d (0x%x) accepted, emitted %s = '%s', the encoding of another operand value" % (
+                    w, w & 0xffffffff, r["bytes"].hex(), texts)
+            else:
+                continue
+            if key not in altered:
+                altered[key] = {"sig": "C06:sweep:%s:altered:%s@%d" % key, "input": ".%s / %s" % (cpu, r["text"]),
+                                "expected": "the operand value is encoded exactly or rejected",
+                                "observed": why, "what": "operand value altered by the encoder",
+                                "replay_line": "asm1 %s %x - %s" % (cpu, A0, nvlib.hexs(r["text"]))}
+    orc["failures"].extend(altered.values())
+    orc["stats"]["sweep_c06"] = {"statements": len(set((m[0], m[1]) for m in meta)), "variants": len(lines),
+                                 "variants_accepted": accepted, "truncations": len(hits),
+                                 "boundary_variants": len(recs), "literals_tracked_by_the_listing": tracked,
+                                 "boundary_values_not_shown": checked,
+                                 "altered": len(altered)}
     orc["distinct_nontrivial"] = orc.get("distinct_nontrivial", 0) + accepted
 
 
@@ -281,6 +507,13 @@ def normalise(txt):
     return b" ".join(NUMTOK.sub(rep, txt).lower().replace(b",", b" , ").split())
 
 
+def shape(txt):
+    """failure class of an instruction text: the text with every run of digits (numbers, and the numbers inside
+    register names) replaced by '#': mnemonic, operand structure, named registers; not the register numbers"""
+    t = NUMTOK.sub(b"#", txt).lower()
+    return b" ".join(re.sub(rb"[0-9]+", b"#", t).replace(b",", b" , ").split()).decode("latin-1")
+
+
 def mnemonic(txt):
     p = txt.split()
     return p[0].decode("latin-1") if p else ""
@@ -290,20 +523,93 @@ def c07_correspondence(ctx, corr):
     return
 
 
+# Input sets of the exhaustive decode -> encode -> decode pass: (tag, address, tail, offset of the 16-bit pattern, k).
+# quick: the first instruction of every shape per 8192 patterns; thorough: every distinct instruction, and a
+# second tail.  (quick is a subset of thorough: same patterns, k-limited)
+def c07_configs(thorough):
+    if thorough:
+        return [("", A0, TAIL, 0, 0), ("@2", A0, TAIL, 2, 0), ("@t2", A0, TAIL2, 0, 0)]
+    return [("", A0, TAIL, 0, 1), ("@2", A0, TAIL, 2, 1)]
+
+
+RT_CHUNK = 8192
+
+
+def c07_prefix_pass(ctx, orc, fails):
+    cpus = cpu_table(ctx)
+    tot = collections.Counter()
+    for tag, addr, tail, off, k in c07_configs(not ctx.quick()):
+        sel = [c for c, b in cpus if off == 0 or MAXLEN.get(c, 0) >= 4]
+        # chunk-major order: neighbouring work items belong to different CPUs (even load of the parallel shards)
+        work = [(c, fr) for fr in range(0, 65536, RT_CHUNK) for c in sel]
+        ans = heavy(ctx, ["rtxb %s %x %s %d %d %d %d" % (c, addr, tail, fr, fr + RT_CHUNK, off, k) for c, fr in work])
+        for (c, fr), a in zip(work, ans):
+            if not a.startswith("n="):
+                fails.setdefault((c, "harness-died", tag), {
+                    "sig": "C07:sweep:%s:harness-died%s" % (c, tag), "input": ".%s patterns %x.. offset %d" % (c, fr, off),
+                    "expected": "an answer", "observed": a[:160], "what": "harness died in the prefix pass"})
+                continue
+            d = dict(x.split("=", 1) for x in a.split())
+            for key in ("n", "uniq", "acc", "same", "more", "unexplored"):
+                tot[key] += int(d[key])
+            orc["cases"] += int(d["uniq"])
+            if int(d["unexplored"]) or int(d["more"]):
+                fails.setdefault((c, "unexplored", tag), {
+                    "sig": "C07:sweep:%s:unexplored%s" % (c, tag), "input": ".%s patterns %x.. offset %d" % (c, fr, off),
+                    "expected": "every pattern is processed", "observed": "unexplored=%s more=%s" % (d["unexplored"], d["more"]),
+                    "what": "so many crashes/hangs (or differing re-encodings) that the pass gave up on part of the range"})
+            if d["rec"] == "-":
+                continue
+            for rec in d["rec"].split(";"):
+                f = rec.split(",")
+                pat = int(f[0], 16)
+                bb = bytes.fromhex(tail)
+                bb = bb[:off] + bytes([pat >> 8, pat & 0xff]) + bb[off:]
+                rl = "disx %s %x %s" % (c, addr, bb.hex())
+                if len(f) == 2:
+                    key = (c, "asm-" + f[1], "%04x" % pat)
+                    fails.setdefault(key, {"sig": "C07:sweep:%s:asm-%s%s:%04x" % (c, f[1], tag, pat), "input": ".%s bytes %s at 0x%x" % (c, bb.hex(), addr),
+                                           "expected": "the assembler accepts or rejects the disassembly text",
+                                           "observed": "assembler/disassembler %s" % f[1], "what": "crash or hang while assembling a disassembly text",
+                                           "replay_line": rl})
+                    continue
+                t1, b2, t2 = nvlib.unhex(f[1]), nvlib.unhex(f[2]), nvlib.unhex(f[3])
+                tot["other_bytes"] += 1
+                if normalise(t1) == normalise(t2):
+                    continue
+                key = (c, shape(t1), shape(t2))
+                fails.setdefault(key, {"sig": "C07:sweep:%s:%s->%s" % key, "input": ".%s bytes %s at 0x%x = '%s'" % (c, bb.hex(), addr, t1.decode("latin-1")),
+                                       "expected": "re-assembled bytes disassemble to the same instruction",
+                                       "observed": "assembled to %s = '%s'" % (b2.hex(), t2.decode("latin-1")),
+                                       "what": "all-CPU decode->encode->decode sweep (16-bit patterns)", "replay_line": rl})
+    return dict(tot)
+
+
 def c07_oracle(ctx, orc):
+    _start = len(orc["failures"])
+    _c07_oracle(ctx, orc)
+    _with_replay(orc, "C07", _start)
+
+
+def _c07_oracle(ctx, orc):
     thorough = not ctx.quick()
+    fails = collections.OrderedDict()
+    # (1) byte strings from the corpus: encodings of the statements and of their boundary variants, single-bit flips
     lines, meta = [], []
-    for cpu in S.cpus():
-        for st in S.statements(cpu):
-            lines.append("asm1 %s %x - %s" % (cpu, A0, nvlib.hexs(st)))
-            meta.append((cpu, st))
+    for cpu in corpus_cpus():
+        for st in statements(cpu):
+            for (v, pos, w) in variants(st, thorough):
+                lines.append("asm1 %s %x - %s" % (cpu, A0, nvlib.hexs(v)))
+                meta.append((cpu, st, pos))
     ans = ctx.impl(lines)
     words = collections.OrderedDict()
-    for (cpu, st), a in zip(meta, ans):
+    for (cpu, st, pos), a in zip(meta, ans):
         if not a.startswith("ok "):
             continue
         b = bytes.fromhex(a.split()[1])
-        words[(cpu, b)] = st
+        words.setdefault((cpu, b), st)
+        if pos is not None:
+            continue
         nbits = min(len(b), 4) * 8
         h = sum(b) + len(st)
         flips = range(nbits) if thorough else sorted(set((h + 5 * j) % nbits for j in range(4)))
@@ -322,11 +628,10 @@ def c07_oracle(ctx, orc):
         n = int(p[0])
         txt = nvlib.unhex(p[1])
         txt = txt.encode("latin-1") if isinstance(txt, str) else txt
-        lines2.append("asm1 %s %x - %s" % (cpu, A0, txt.hex()))
+        lines2.append("asm1 %s %x - %s" % (cpu, A0, instr_text(txt).hex() or "-"))
         meta2.append((cpu, b[:n], txt))
     ans2 = ctx.impl(lines2)
     lines3, meta3 = [], []
-    fails = collections.OrderedDict()
     acc = 0
     for (cpu, b, txt), a in zip(meta2, ans2):
         if a.startswith("DIED"):
@@ -353,53 +658,67 @@ def c07_oracle(ctx, orc):
             txt2 = t.encode("latin-1") if isinstance(t, str) else t
         if normalise(txt2) == normalise(txt):
             continue
-        key = (cpu, mnemonic(txt), mnemonic(txt2))
+        key = (cpu, shape(txt), shape(txt2))
         fails.setdefault(key, {"sig": "C07:sweep:%s:%s->%s" % key, "input": ".%s bytes %s = '%s'" % (cpu, b.hex(), txt.decode("latin-1")),
                                "expected": "re-assembled bytes disassemble to the same instruction",
                                "observed": "assembled to %s = '%s'" % (b2.hex(), txt2.decode("latin-1")),
                                "what": "all-CPU decode->encode->decode sweep", "replay_line": "disx %s %x %s" % (cpu, A0, b.hex())})
+    # (2) every 16-bit pattern of every CPU
+    pp = c07_prefix_pass(ctx, orc, fails)
     orc["failures"].extend(fails.values())
-    orc["stats"]["sweep_c07"] = {"byte_strings": len(keys), "texts_accepted": acc, "reassembled_to_other_bytes": len(lines3),
-                                 "failing_classes": len(fails)}
-    orc["distinct_nontrivial"] = orc.get("distinct_nontrivial", 0) + acc
+    orc["stats"]["sweep_c07"] = {"corpus_byte_strings": len(keys), "texts_accepted": acc, "reassembled_to_other_bytes": len(lines3),
+                                 "prefix_pass": pp, "failing_classes": len(fails)}
+    orc["distinct_nontrivial"] = orc.get("distinct_nontrivial", 0) + acc + pp.get("acc", 0)
 
 
 # ---------------------------------------------------------------------------------------------
 # C08
 # ---------------------------------------------------------------------------------------------
+# The longest instruction of every back end in BYTES, written by hand from the instruction-set definitions (and, for
+# the back ends that implement only part of an ISA, from the longest form the back end encodes); it is NOT derived
+# from what the disassembler returns.  Family members share the entry of their disassembler.
+MAXLEN = {
+    "1802": 3, "4004": 2, "6502": 3, "65816": 4, "65832": 4, "6800": 3, "68000": 10, "6809": 5, "68hc08": 4, "8008": 3,
+    "8041": 2, "8048": 2, "8051": 3, "86000": 3, "agc": 4, "arc": 8, "arm": 4, "arm64": 4, "avr8": 4, "cell": 4,
+    "copper": 4, "cp1610": 6, "dotnet": 9, "dspic": 8, "pic24": 8, "ebpf": 16, "epiphany": 4, "f100_l": 6, "f8": 3,
+    "java": 6, "lc3": 2, "m8c": 3, "mips": 4, "mips32": 4, "n64_rsp": 4, "pic32": 4, "ps2_ee": 4, "msp430": 6,
+    "msp430x": 8, "pdk13": 2, "pdk14": 2, "pdk15": 2, "pdk16": 2, "pdp11": 6, "pdp8": 2, "pic14": 2, "pic18": 4,
+    "powerpc": 4, "propeller": 4, "propeller2": 4, "ps2_ee_vu0": 4, "ps2_ee_vu1": 4, "riscv": 4, "riscv64": 4,
+    "sh4": 2, "sparc": 4, "stm8": 5, "super_fx": 4, "sweet16": 3, "thumb": 4, "tms1000": 1, "tms1100": 1,
+    "tms340": 10, "tms9900": 6, "unsp": 4, "webasm": 11, "xtensa": 3, "z80": 4,
+}
+
+
 def maxlen_table():
-    return json.load(open(os.path.join(HERE, "tools", "sweep_maxlen.json")))
+    return MAXLEN
 
 
-def disxb_all(ctx, cpus, addr, chunk=4096):
-    """returns {cpu: {"bad": {kind: {prefix: len}}, "max": n, "crash": set(prefix), "n": count}}"""
-    res = {c: {"bad": collections.defaultdict(dict), "max": 0, "n": 0, "lens": collections.Counter()} for c, _ in cpus}
-    work = [(c, fr, fr + chunk) for c, _ in cpus for fr in range(0, 65536, chunk)]
-    while work:
-        ans = ctx.impl(["disxb %s %x %s %d %d" % (c, addr, TAIL, fr, to) for c, fr, to in work])
-        nxt = []
-        for (c, fr, to), a in zip(work, ans):
-            if not a.startswith("n="):
-                if len(res[c]["bad"]["crash"]) >= CRASH_CAP:
-                    res[c]["unexplored"] = res[c].get("unexplored", 0) + (to - fr)   # enough crashes to report
-                elif to - fr == 1:
-                    res[c]["bad"]["crash"][fr] = a[:120]
-                    res[c]["n"] += 1
-                else:
-                    mid = (fr + to) // 2
-                    nxt += [(c, fr, mid), (c, mid, to)]
-                continue
-            d = dict(x.split("=", 1) for x in a.split())
-            res[c]["n"] += int(d["n"])
-            res[c]["max"] = max(res[c]["max"], int(d["max"]))
-            if d["bad"] != "-":
-                for b in d["bad"].split(";"):
-                    p, k, l = b.split(":")
-                    res[c]["bad"][k][int(p, 16)] = int(l)
+def disxb_all(ctx, cpus, addr, off=0, tail=TAIL, chunk=4096):
+    """every 16-bit pattern at byte offset `off` of the instruction, for the named CPUs.
+    returns {cpu: {"bad": {kind: {pattern: len}}, "max": n, "n": count, "lens": histogram, "unexplored": n}}
+    (the harness survives a crashing decoder: kinds crash/hang; after 8 crashes in a chunk of 4096 patterns the rest
+    of the chunk is counted as unexplored)"""
+    res = {c: {"bad": collections.defaultdict(dict), "max": 0, "n": 0, "lens": collections.Counter(), "unexplored": 0,
+               "died": []} for c, _ in cpus}
+    work = [(c, fr, fr + chunk) for fr in range(0, 65536, chunk) for c, _ in cpus]
+    ans = heavy(ctx, ["disxb %s %x %s %d %d %d" % (c, addr, tail, fr, to, off) for c, fr, to in work])
+    for (c, fr, to), a in zip(work, ans):
+        if not a.startswith("n="):
+            res[c]["died"].append((fr, to, a[:160]))      # the harness itself died (not the forked worker)
+            res[c]["unexplored"] += to - fr
+            continue
+        d = dict(x.split("=", 1) for x in a.split())
+        res[c]["n"] += int(d["n"])
+        res[c]["max"] = max(res[c]["max"], int(d["max"]))
+        res[c]["unexplored"] += int(d["unexplored"])
+        if d["bad"] != "-":
+            for b in d["bad"].split(";"):
+                p, k, l = b.split(":")
+                res[c]["bad"][k][int(p, 16)] = int(l)
+        if d["lens"] != "-":
             for x in d["lens"].split(","):
                 l, n = x.split(":")
                 res[c]["lens"][int(l)] += int(n)
-        work = nxt
     return res
 
 
@@ -416,99 +735,209 @@ def c08_correspondence(ctx, corr):
     return
 
 
+# Input sets of the single-instruction sweep: (tag, load address, tail bytes, offset of the swept 16-bit pattern).
+# Offset 0 for every CPU; offset 2 as well (the upper half-word of a little-endian 32-bit word, where those ISAs keep
+# their opcode bits) for every CPU whose instructions reach 4 bytes.  The thorough tier adds a second tail (operand
+# bytes that select the long forms: 0x89 = 6809 16-bit offset post byte, 0xff/0x80 sign boundaries) and a second load
+# address (2 bytes below 64 KiB).  Fixed lists: quick is a prefix of thorough, nothing depends on the seed.
+TAIL2 = "89ff80017fc3e55a0ff01e2d3c4b"
+A1 = 0xfffe
+
+
+def c08_configs(thorough):
+    cfg = [("", A0, TAIL, 0), ("@2", A0, TAIL, 2)]
+    if thorough:
+        cfg += [("@t2", A0, TAIL2, 0), ("@a2", A1, TAIL, 0), ("@t2a2o2", A1, TAIL2, 2)]
+    return cfg
+
+
+WALK_BLOCKS = [(0x1000, 192), (0xff40, 256), (0x20000 - 64, 96)]
+KIND_TEXT = {"short": "length >= one address unit",
+             "nonlocal": "text and length independent of the bytes after the instruction",
+             "nonul": "NUL-terminated text inside the 128-byte buffer",
+             "crash": "the disassembler returns", "hang": "the disassembler returns within 20 s"}
+
+
+def leb_signed32(blk, pos):
+    """(value as the C code keeps it in an int, bytes read): LEB128 as disasm/webasm.cpp reads it (at most 10 bytes;
+    bytes past the block read as 0)"""
+    num, shift, n = 0, 0, 0
+    while n < 10:
+        ch = blk[pos + n] if pos + n < len(blk) else 0
+        n += 1
+        num |= (ch & 0x7f) << shift
+        shift += 7
+        if not ch & 0x80:
+            break
+    if shift < 64 and num & (1 << (shift - 1)):
+        num -= 1 << shift
+    num &= 0xffffffff
+    return (num - (1 << 32) if num & 0x80000000 else num), n
+
+
+def line_address(c, bpa, head):
+    """byte address named by the text before the ':' of a listing line of disasm_range_<c>; None if the line is not
+    an address line (headings such as 'Vectors:')"""
+    h = head.strip()
+    try:
+        if c in ("agc", "pdp8"):                      # "0%04o": octal word address
+            return int(h, 8) * bpa if re.fullmatch(r"0[0-7]+", h) else None
+        if c == "pdp11":                              # "0%04x": hex byte address after a literal 0
+            return int(h[1:], 16) if re.fullmatch(r"0[0-9a-f]{4,}", h) else None
+        if c in ("tms1000", "tms1100"):               # "%03x|%-2d [chapter/]page/lsfr": linear address first
+            m = re.fullmatch(r"([0-9a-f]+)\|\d+ +[0-9a-f]+/[0-9a-f]+(/[0-9a-f]+)?", h)
+            return int(m.group(1), 16) if m else None
+        if re.fullmatch(r"0x[0-9a-fA-F]+", h):
+            return int(h, 16) * bpa
+    except ValueError:
+        pass
+    return None
+
+
+def line_step(c, ad, start, end, blk, lens):
+    """bytes covered by the listing line that disasm_range prints at byte address `ad` (None: unknown length).
+    One line = one instruction of the single-instruction disassembler, except for the three listing formats below."""
+    n = lens.get(ad)
+    if n is None or n <= 0:
+        return None
+    if c in ("msp430", "msp430x") and 0xffe0 <= ad <= 0xffff:
+        return 2                     # the interrupt vector table is listed as 16 words, one per line
+    if c in ("ps2_ee_vu0", "ps2_ee_vu1"):
+        m = lens.get(ad + 4)         # a VU instruction is the pair lower (ad) / upper (ad + 4) word: one line
+        return n + m if m and m > 0 else None
+    if c == "webasm" and blk[ad - start] == 0x0e:
+        # br_table: the instruction line covers opcode + count, the entries follow on lines without address
+        count, k = leb_signed32(blk, ad - start + 1)
+        pos, i = ad + 1 + k, 0
+        while i < count and pos <= end:
+            _, k2 = leb_signed32(blk, pos - start)
+            pos += k2
+            i += 1
+        return pos - ad
+    return n
+
+
 def c08_oracle(ctx, orc):
+    _start = len(orc["failures"])
+    _c08_oracle(ctx, orc)
+    _with_replay(orc, "C08", _start)
+
+
+def _c08_oracle(ctx, orc):
     cpus = cpu_table(ctx)
     maxlen = maxlen_table()
     known = known_members("C08")
-    res = disxb_all(ctx, cpus, A0)
-    stats = {"cpus": len(cpus), "prefixes_per_cpu": 65536, "instructions": 0, "bad_by_kind": collections.Counter()}
+    stats = {"cpus": len(cpus), "patterns_per_cpu_and_offset": 65536, "instructions": 0, "bad_by_kind": collections.Counter()}
     skip_walk = set()
-    for c, bpa in cpus:
-        r = res[c]
-        orc["cases"] += r["n"]
-        stats["instructions"] += r["n"]
-        if r["max"] > maxlen.get(c, 0):
-            orc["failures"].append({"sig": "C08:sweep:%s:toolong:%d" % (c, r["max"]), "input": ".%s all 16-bit prefixes" % c,
-                                    "expected": "length <= %d (the CPU's longest instruction)" % maxlen.get(c, 0),
-                                    "observed": "length %d" % r["max"], "what": "instruction length above the CPU's maximum"})
-        for kind, members in r["bad"].items():
-            stats["bad_by_kind"][kind] += len(members)
-            if kind in ("short", "crash"):
-                skip_walk.add(c)
-            sig = "C08:sweep:%s:%s" % (c, kind)
-            new = sorted(set(members) - known.get(sig, set()))
-            if len(new) < len(members):
-                orc["failures"].append({"sig": sig, "input": ".%s prefixes %s" % (c, set_to_ranges(set(members) - set(new))[:300]),
-                                        "expected": "see property", "observed": kind, "what": "known class"})
-            for p in new[:8]:
-                orc["failures"].append({
-                    "sig": "%s:%04x" % (sig, p), "input": ".%s bytes %04x%s at 0x%x" % (c, p, TAIL, A0),
-                    "expected": {"short": "length >= one address unit (%d)" % bpa,
-                                 "nonlocal": "text and length independent of the bytes after the instruction",
-                                 "nonul": "NUL-terminated text inside the 128-byte buffer",
-                                 "crash": "the disassembler returns"}.get(kind, kind),
-                    "observed": "%s (%s)" % (kind, members[p]), "what": "single-instruction disassembly: " + kind,
-                    "replay_line": "disx %s %x %04x%s" % (c, A0, p, TAIL)})
-    # (b) range walk = chain of instruction lengths
+    full = {}       # sig -> {pattern: length}: complete member sets (tools/sweep_regen.py writes them down)
+    for tag, addr, tail, off in c08_configs(not ctx.quick()):
+        sel = [(c, b) for c, b in cpus if off == 0 or maxlen.get(c, 0) >= 4]
+        res = disxb_all(ctx, sel, addr, off, tail)
+        stats["cpus_in_set_%s" % (tag or "base")] = len(sel)
+        for c, bpa in sel:
+            r = res[c]
+            orc["cases"] += r["n"]
+            stats["instructions"] += r["n"]
+            if r["max"] > maxlen.get(c, 0):
+                orc["failures"].append({"sig": "C08:sweep:%s:toolong%s:%d" % (c, tag, r["max"]),
+                                        "input": ".%s all 16-bit patterns at offset %d, tail %s, address 0x%x" % (c, off, tail, addr),
+                                        "expected": "length <= %d (the CPU's longest instruction)" % maxlen.get(c, 0),
+                                        "observed": "length %d" % r["max"], "what": "instruction length above the CPU's maximum"})
+            if r["unexplored"]:
+                orc["failures"].append({"sig": "C08:sweep:%s:unexplored%s" % (c, tag),
+                                        "input": ".%s 16-bit patterns at offset %d, tail %s, address 0x%x" % (c, off, tail, addr),
+                                        "expected": "every pattern is disassembled",
+                                        "observed": "%d patterns not reached: more than 8 crashes per 4096 patterns%s" % (
+                                            r["unexplored"], "; harness died: %s" % (r["died"][:2],) if r["died"] else ""),
+                                        "what": "the disassembler crashes on so many patterns that the sweep gave up"})
+            for kind, members in r["bad"].items():
+                stats["bad_by_kind"][kind] += len(members)
+                if kind in ("short", "crash", "hang"):
+                    skip_walk.add(c)
+                sig = "C08:sweep:%s:%s%s" % (c, kind, tag)
+                full[sig] = dict(members)
+                new = sorted(set(members) - known.get(sig, set()))
+                if len(new) < len(members):
+                    orc["failures"].append({"sig": sig, "input": ".%s patterns %s" % (c, set_to_ranges(set(members) - set(new))[:300]),
+                                            "expected": KIND_TEXT.get(kind, kind), "observed": kind, "what": "known class"})
+                for p in new[:8]:
+                    b = bytes.fromhex(tail)
+                    b = b[:off] + bytes([p >> 8, p & 0xff]) + b[off:]
+                    orc["failures"].append({
+                        "sig": "%s:%04x" % (sig, p), "input": ".%s bytes %s at 0x%x" % (c, b.hex(), addr),
+                        "expected": KIND_TEXT.get(kind, kind) + (" (%d)" % bpa if kind == "short" else ""),
+                        "observed": "%s (%s)" % (kind, members[p]), "what": "single-instruction disassembly: " + kind,
+                        "replay_line": "disx %s %x %s" % (c, addr, b.hex())})
+    orc["_c08_members"] = full
+    # (b) range walk: the address column is the chain start, start + line, ... up to the end
     wl, wm = [], []
     for c, bpa in cpus:
         if c in skip_walk:
             continue
-        for bi, (start, n) in enumerate([(0x1000, 192), (0xff40, 256), (0x20000 - 64, 96)]):
+        for bi, (start, n) in enumerate(WALK_BLOCKS):
             blk = lcg_block(0x1234567 + bi * 977 + sum(map(ord, c)), n)
-            wl.append("walk %s %x %x %s" % (c, start, start + n - 1, blk.hex()))
+            wl.append("walkx %s %x %x %s" % (c, start, start + n - 1, blk.hex()))
             wm.append((c, bpa, start, blk))
     wa = ctx.impl(wl)
     dl, dm = [], []
+    for (c, bpa, start, blk) in wm:
+        for ad in range(start, start + len(blk), bpa):
+            dl.append("disx %s %x %s" % (c, ad, blk[ad - start:].hex()))
+            dm.append((c, start, ad))
+    da = ctx.impl(dl)
+    lens = collections.defaultdict(dict)
+    for (c, start, ad), a in zip(dm, da):
+        p = a.split()
+        if len(p) == 2 and p[0] == "nonul":
+            p = p[1:]               # the missing NUL is reported by the single-instruction sweep; the length stands
+        lens[(c, start)][ad] = int(p[0]) if p and p[0].lstrip("-").isdigit() else None
+    walks = 0
     for (c, bpa, start, blk), a in zip(wm, wa):
         orc["cases"] += 1
+        end = start + len(blk) - 1
+        rl = "walkx %s %x %x %s" % (c, start, end, blk.hex())
         if a.startswith("DIED") or a in ("bad-op", "MISSING"):
             orc["failures"].append({"sig": "C08:sweep:%s:walk-crash:%x" % (c, start), "input": ".%s range 0x%x" % (c, start),
                                     "expected": "the range walk returns", "observed": a[:160], "what": "disasm_range died / hung",
-                                    "replay_line": "walk %s %x %x %s" % (c, start, start + len(blk) - 1, blk.hex())})
+                                    "replay_line": rl})
             continue
-        if a == "-":
-            continue
-        addrs = [int(x.rstrip("+"), 16) * bpa for x in a.split(",") if not x.endswith("+")]
-        for ad in addrs:
-            if start <= ad < start + len(blk):
-                dl.append("disx %s %x %s" % (c, ad, blk[ad - start:].hex()))
-                dm.append((c, start, ad))
-        dm.append((c, start, None, addrs, blk))
-    da = ctx.impl(dl)
-    lens = {}
-    it = iter(da)
-    for m in dm:
-        if len(m) == 3:
-            a = next(it)
-            p = a.split()
-            lens[m] = int(p[0]) if p and p[0].lstrip("-").isdigit() else None
-    walks = 0
-    for m in dm:
-        if len(m) != 5:
-            continue
-        c, start, _, addrs, blk = m
         walks += 1
-        end = start + len(blk) - 1
-        exp, ad = [], start
-        ok = True
+        heads = [] if a == "-" else [nvlib.unhex(x) for x in a.split(",")]
+        heads = [h.decode("latin-1") if isinstance(h, bytes) else h for h in heads]
+        printed = [x for x in (line_address(c, bpa, h) for h in heads) if x is not None]
+        # expected instruction lines
+        exp, ad, why = [], start, None
         while ad <= end:
             exp.append(ad)
-            n = lens.get((c, start, ad))
-            if n is None:
-                # the walk did not print this address: its length is unknown, ask for it later (mismatch anyway)
-                ok = False
+            st = line_step(c, ad, start, end, blk, lens[(c, start)])
+            if st is None:
+                why = "single-instruction disassembler gives no positive length at 0x%x" % ad
                 break
-            if n <= 0:
-                break
-            ad += n
-        if not ok or addrs != exp:
+            ad += st
+        if why is None:
+            es = set(exp)
+            if any(y <= x for x, y in zip(printed, printed[1:])):
+                why = "address column not strictly increasing"
+            elif [x for x in exp if x not in set(printed)]:
+                why = "instruction address 0x%x not printed" % [x for x in exp if x not in set(printed)][0]
+            else:
+                # every other printed address must be a continuation line inside the instruction before it
+                bounds = exp + [ad]
+                import bisect
+                for x in printed:
+                    if x in es:
+                        continue
+                    k = bisect.bisect_right(exp, x) - 1
+                    if k < 0 or not (bounds[k] < x < bounds[k + 1]):
+                        why = "address 0x%x printed outside the range / chain" % x
+                        break
+        if why is not None:
             orc["failures"].append({
                 "sig": "C08:sweep:%s:walk-tiling:%x" % (c, start), "input": ".%s range 0x%x-0x%x over %s" % (c, start, end, blk.hex()[:64]),
-                "expected": "addresses %s..." % ",".join("%x" % x for x in exp[:12]),
-                "observed": "addresses %s..." % ",".join("%x" % x for x in addrs[:12]),
+                "expected": "instruction lines at %s... (every unit once, increasing, up to the end)" % ",".join("%x" % x for x in exp[:12]),
+                "observed": "%s; printed %s..." % (why, ",".join("%x" % x for x in printed[:12])),
                 "what": "disasm_range does not print the chain start, start+len, ... up to the end",
-                "replay_line": "walk %s %x %x %s" % (c, start, end, blk.hex())})
+                "replay_line": rl})
     stats["range_walks"] = walks
     stats["walk_skipped_cpus"] = sorted(skip_walk)
     # (c) naken_util -disasm page geometry
@@ -528,12 +957,15 @@ def util_page_walk(ctx, orc):
     tmp = ctx.tmpdir()
     runs = 0
     for cpu, nop, bpa in UTIL_CPUS:
+        if ONLY_CPUS is not None and cpu not in ONLY_CPUS:
+            continue
         for gi, (start, size) in enumerate(GEOMETRIES):
             size -= size % len(nop)
             path = os.path.join(tmp, "pw_%s_%d.bin" % (cpu, gi))
             open(path, "wb").write(nop * (size // len(nop)))
             try:
-                r = subprocess.run([ctx.repo["naken_util"], "-disasm", "-" + cpu, "-bin", "-address", "0x%x" % (start // bpa), path],
+                # -address is the BYTE address the image is placed at (fileio/read_bin.cpp); the listing prints address units
+                r = subprocess.run([ctx.repo["naken_util"], "-disasm", "-" + cpu, "-bin", "-address", "0x%x" % start, path],
                                    stdout=subprocess.PIPE, stderr=subprocess.PIPE, env=nvlib.SAN_ENV, timeout=120)
                 out, rc = r.stdout.decode("latin-1"), r.returncode
             except subprocess.TimeoutExpired:
@@ -552,14 +984,24 @@ def util_page_walk(ctx, orc):
                 dup = len(addrs) - len(set(addrs))
                 orc["failures"].append({
                     "sig": "C08:util-disasm:%s:%x+%x" % (cpu, start, size),
-                    "input": "naken_util -disasm -%s -bin -address 0x%x (image of %d bytes of nop)" % (cpu, start // bpa, size),
+                    "input": "naken_util -disasm -%s -bin -address 0x%x (image of %d bytes of nop)" % (cpu, start, size),
                     "expected": "every instruction address %x..%x listed once, in order" % (start, start + size - len(nop)),
                     "observed": "rc=%d, %d lines, %d missing (first %s), %d unexpected, %d repeated" % (
                         rc, len(addrs), len(miss), ["%x" % x for x in miss[:3]], len(extra), dup),
                     "what": "whole-image disassembly does not tile the image",
-                    "replay": {"cpu": "sweep", "kind": "util", "util_cpu": cpu, "start": start, "size": size}})
+                    })
     return runs
 
 
 def replay(ctx, r):
-    return []
+    """re-run the sweep of the recorded property on the recorded CPU; the failures with the recorded signature"""
+    global ONLY_CPUS
+    if r.get("kind") == "util":          # records written before replay records were uniform
+        r = {"prop": "C08", "only": r.get("util_cpu"), "sig": None}
+    ONLY_CPUS = set([r["only"]])
+    try:
+        orc = {"cases": 0, "failures": [], "stats": {}}
+        globals()["_" + r["prop"].lower() + "_oracle"](ctx, orc)
+    finally:
+        ONLY_CPUS = None
+    return [f for f in orc["failures"] if r.get("sig") is None or f["sig"] == r["sig"] or f["sig"].startswith(r["sig"] + ":")]
